@@ -16,6 +16,7 @@
 EXTENDS CsvCodec
 
 CONSTANTS PAlphabet, PMaxLen, InPolicies, OutPolicies, OutDlm, WithHeader,
+          PEnc,        \* "utf-8" or "latin-1": the file encoding (decides what a byte order mark looks like in the text)
           PQueries     \* subset of {1, 2}; query 2 needs a first field in every record (not so under the whitespace policy: a blank line has no field)
 
 VARIABLES itext, ipol, opol, qk, ppc
@@ -33,7 +34,7 @@ PNext == PGrow \/ PChoose
 
 InDlm == IF ipol = "monocolumn" THEN <<>> ELSE <<DlmA>>
 ODlm  == <<OutDlm>>
-Rd    == RefRead(itext, InDlm, ipol, 0, "utf-8")
+Rd    == RefRead(itext, InDlm, ipol, 0, PEnc)
 \* with a header the first record is the header line: it is not data (NR starts after it) and is written first, as it is for select *,
 \* as <<"NR", name of a1>> for query 2 (bare variable and column name, C07)
 Data(recs) == IF WithHeader /\ recs # <<>> THEN Tail(recs) ELSE recs
@@ -57,10 +58,10 @@ RaggedData == Rd.ragged
 
 PDone == ppc = "done"
 \* composition theorem: whenever the query result is representable in the output dialect, reading the output file back yields it
-ReReadable == (PDone /\ ~Rd.err /\ HdrErr = 0 /\ Representable(OutT, ODlm, opol)) =>
-              LET back == ReadBack(Wr.text, ODlm, opol) IN back.recs = Expected(OutT, opol) /\ ~back.err /\ back.firstdef = 0
+ReReadable == (PDone /\ ~Rd.err /\ HdrErr = 0 /\ RepresentableE(OutT, ODlm, opol, PEnc)) =>
+              LET back == ReadBackE(Wr.text, ODlm, opol, PEnc) IN back.recs = Expected(OutT, opol) /\ ~back.err /\ back.firstdef = 0
 
-PCase == [text |-> itext, indlm |-> InDlm, ipol |-> ipol, opol |-> opol, qk |-> qk, header |-> WithHeader,
+PCase == [text |-> itext, enc |-> PEnc, indlm |-> InDlm, ipol |-> ipol, opol |-> opol, qk |-> qk, header |-> WithHeader,
           \* records are processed as they are read: a width mismatch in an earlier record is met before a malformed later line
           rderr |-> (Rd.err /\ HdrErr = 0), errnr |-> Rd.errnr, errnl |-> Rd.errnl, hdrerr |-> HdrErr,
           out |-> IF Rd.err \/ HdrErr # 0 THEN <<>> ELSE Wr.text,
